@@ -8,7 +8,7 @@ PROPERTY = "C05"
 RULE = ("enum: every +/-/0 pattern with N<=8 (quick) / N<=10 (thorough), spelled, against its reversal, its charge "
         "inversion and an independent respelling; every composition with N<=18 (quick) / 30 (thorough) plus n0 in 16..22/26 x n+,n- in 1..8/12: delta-max of one arrangement vs its inversion and reversal; hyp: sequences to 80 (quick) / 200 (thorough) residues x a generated chain of "
         "transformations from {class-preserving substitution at a random subset of positions, Omega-class-preserving "
-        "substitution, reversal, K/R<->D/E inversion}. Oracle: kappa, delta, delta-max, SCD (Omega for its own classes and for "
+        "substitution, reversal, K/R<->D/E inversion}. long-neighbours: 2-4 compositions of one length 101..160 differing by one residue are analysed one after another, then compared with their inverted and reversed twins in the opposite order. Oracle: kappa, delta, delta-max, SCD (Omega for its own classes and for "
         "reversal) agree between original and transformed object to 1e-9 (either side of the clamp accepted when the exact "
         "ratio is within 1e-9 of 1 or 1.1; -1 sentinels must coincide). Non-trivial: transformed string differs and kappa "
         "is defined; distinct by (sequence, transformed sequence).")
@@ -28,8 +28,8 @@ def invert(s):
     return "".join(INV.get(r, r) for r in s)
 
 
-def measures(seq, omega=True):
-    o = util.sp(seq)
+def measures(seq, omega=True, case=None):
+    o = util.spw(seq, case or {})
     out = dict(kappa=o.get_kappa(), delta=o.get_delta(), dmax=o.get_deltaMax(), scd=o.get_SCD())
     if omega:
         out["omega"] = util.sp(seq).get_Omega()
@@ -50,7 +50,7 @@ def omega_near_edge(seq):
 
 
 def compare(ctx, case, a, b, what, names):
-    ma = measures(a, "omega" in names)
+    ma = measures(a, "omega" in names, case)
     mb = measures(b, "omega" in names)
     for n in names:
         x, y = ma[n], mb[n]
@@ -117,6 +117,29 @@ def check_comp(ctx, case):
     ctx.check(ref.close(a, c), "comp-reversal:dmax", "delta-max changed under reversal: %r vs %r for %s" % (a, c, case["comp"]), case)
 
 
+def check_neighbours(ctx, case):
+    """2-4 compositions of one length > 100 differing by one residue, analysed one after another; then each against its
+    charge-inverted and reversed twin (visited in the opposite order)."""
+    seqs = case["seqs"]
+    ctx.count(case, nontrivial=True, classes=["long-neighbours:%d" % len(seqs)])
+    first = [measures(s, False) for s in seqs]
+    for s, m in reversed(list(zip(seqs, first))):
+        for what, t in (("inversion", invert(s)), ("reversal", s[::-1])):
+            mt = measures(t, False)
+            for n in ("kappa", "delta", "dmax"):
+                ok = ((m[n] == -1) == (mt[n] == -1)) and ref.close(m[n], mt[n])
+                if not ok and n == "kappa" and near_edge(s):
+                    continue
+                ctx.check(ok, "neighbours-" + what + ":" + n, "%s of a %d-residue sequence changed %s: %r vs %r (after analysing neighbouring compositions %r)" % (
+                    what, len(s), n, m[n], mt[n], case["comps"]), case)
+
+
+@st.composite
+def neighbour_case(draw):
+    comps = draw(gens.neighbour_compositions())
+    return {"comps": comps, "seqs": [draw(gens.by_composition(*c)) for c in comps]}
+
+
 def apply_ops(s, ops):
     """ops: list of [name, arg]; returns (transformed, charge_class_preserved, omega_class_preserved)."""
     t = s
@@ -174,7 +197,7 @@ def chains(draw, max_len):
         else:
             ops.append([op, None])
             cur = cur[::-1] if op == "reverse" else invert(cur)
-    return {"seq": s, "ops": ops, "kind": kind}
+    return {"seq": s, "ops": ops, "kind": kind, "warm": draw(gens.warmups(3)) if len(s) <= 40 else []}
 
 
 def parts(tier):
@@ -186,4 +209,6 @@ def parts(tier):
         Part("hyp-chains", "hyp", check=check_chain,
              strategy=lambda t: chains(80 if t == "quick" else 200),
              examples={"quick": 2400, "thorough": 16000}, shards={"quick": 16, "thorough": 16}),
+        Part("hyp-long-neighbours", "hyp", check=check_neighbours, strategy=lambda t: neighbour_case(), shrink=False,
+             examples={"quick": 64, "thorough": 1200}, shards={"quick": 16, "thorough": 16}),
     ]
